@@ -1,6 +1,22 @@
 import U3.Model.Pool
 import U3.Lemmas.Pool
-/-! # C01 — a pool never loses, duplicates or leaks connection slots, whatever the outcome -/
+import U3.Lemmas.PoolInv
+/-! # C01 — a pool never loses, duplicates or leaks connection slots, whatever the outcome
+
+Proved for **every history** (any list of `request` / `dispose` / `closePool` operations on a pool
+created with `maxsize = n > 0`, every per-attempt script, every configuration, every retry budget):
+the counting invariant `Inv` holds after the history (`C01_inv_reachable`); every exception a
+`urlopen` call raises is a urllib3 exception or an interrupt (`C01_errors_are_urllib3`, full
+statement); `maxsize` / `block` are never written (`C01_config_const`); a response that holds no
+connection never holds one later (`C01_unheld_stays`), `release_conn()` makes it so
+(`C01_release_unholds`).  Consequences: with no response holding a connection the open pool offers
+exactly `n` slots (`C01_quiescent_slots_partial`), every connected connection is idle in the queue
+(`C01_no_leak_partial`), and `n` holding responses block the `n+1`-th checkout
+(`C01_n_plus_one_blocks`).  The two `_partial` theorems keep exactly one hypothesis, "no response
+holds a connection": it cannot be replaced by "every response was read, released or closed"
+because `HTTPResponse.close()` keeps the hold (`C01_close_keeps_slot_witness`, known finding
+`slot-not-returned:close`).
+-/
 namespace U3.Props
 open U3 U3.Pool
 
@@ -31,22 +47,12 @@ def handledOk (c0 : Cls) : Handled → Bool
   | .raise e => okClass c0 e.cls
   | .retry _ => true
 
-/-
-Full statement (DESIGN Appendix E):
-  (statement) C01_errors_are_urllib3 (h : Reachable cfg s) :
-      (step s (.request rid rc retries script)).2 = .result (.raised e) →
-        isUrllib3 e.cls ∨ (isInterrupt e.cls ∧ the script injects an interrupt)
-What is proved: the finite table — for EVERY class that `_make_request` can raise in the model
-(`raisable`, a superset), every proxy situation, every retry budget and method class, what `urlopen`'s
-`except` clauses (read from the GENERATED tuples `Gen.urlopenHandlers` / `Gen.urlopenIsinstance` and
-the generated subclass relation) hand to the caller is a urllib3 exception, or the very interrupt
-that was raised.  Missing: the lifting lemma "`makeRequest` raises only classes of `raisable`"
-through the control flow of `request` (a case analysis over `connect`, `connRequest`, `readHead`,
-`httpRead`, `rawRead`; the out-of-range branches of the totalised model, which produce
-`AttributeError`, have to be shown unreachable from `init`).  The correspondence run compares the
-result class of every request with the implementation, and the oracle checks the clause directly.
--/
-theorem C01_errors_are_urllib3_partial :
+/-- the finite table behind `C01_errors_are_urllib3`: for EVERY class that `_make_request` can raise
+in the model (`raisable`, a superset of `U3.Pool.mrCls`), every proxy situation, every retry budget and
+method class, what `urlopen`'s `except` clauses (read from the GENERATED tuples
+`Gen.urlopenHandlers` / `Gen.urlopenIsinstance` and the generated subclass relation) hand to the
+caller is a urllib3 exception, or the very interrupt that was raised -/
+theorem C01_except_table :
     ∀ c ∈ raisable, ∀ unconnected mret : Bool, ∀ retries : Retry,
       handledOk c (handleError unconnected retries mret c) = true := by
   intro c hc unconnected mret retries
@@ -72,6 +78,32 @@ theorem C01_errors_are_urllib3_partial :
 
 example : Gen.cKeyboardInterrupt ∈ raisable ∧ Gen.cConnectionResetError ∈ raisable := by decide
 
+/-- every class that leaves `_make_request` on a reachable state (`U3.Pool.makeRequest_inv`) is in the table -/
+theorem C01_raisable_covers : ∀ c ∈ mrCls, c ∈ raisable := by decide
+
+/-- FULL statement (DESIGN Appendix E): after any history on a pool created with `maxsize = n > 0`,
+whatever a `urlopen` call raises — from `_get_conn`, from any I/O step of any attempt, from the
+retry machinery, from `_put_conn`, from draining a redirect / retry response — is a urllib3 exception
+(`HTTPError`) or an interrupt (a `BaseException` that is not an `Exception`; the fault scripts
+inject nothing else of that kind).  The lifting lemma that used to be missing is
+`U3.Pool.makeRequest_inv` (classes leaving `_make_request`) + `U3.Pool.request_good` (control flow of
+`urlopen`, by induction over the attempt script). -/
+theorem C01_errors_are_urllib3 (n : Nat) (block proxy : Bool) (hn : 0 < n) (ops : List Op) (rid : Nat) (rc : ReqCfg)
+    (retries : Retry) (script : List Attempt) (e : Exc)
+    (h : (step (run (init n block proxy) ops) (.request rid rc retries script)).2 = .result (.raised e)) :
+    isUrllib3 e.cls = true ∨ isInterrupt e.cls = true := by
+  have hi := run_inv ops _ (init_inv n block proxy hn)
+  have g := (request_good rid 0 script _ rc retries hi (Nat.zero_le _)).2.1 e (by
+    have : (step (run (init n block proxy) ops) (.request rid rc retries script)).2
+        = .result (request (run (init n block proxy) ops) rid rc retries script).2 := rfl
+    rw [this] at h; injection h)
+  have : (isUrllib3 e.cls || isInterrupt e.cls) = true := g
+  simpa using this
+
+example : (match (step (run (init 1 true) []) (.request 0 {} .off [{ connect := .refused }])).2 with
+    | .result (.raised e) => e.cls == Gen.cU3NewConnectionError
+    | _ => false) = true := by decide
+
 /-- the generated `except` tuple of `urlopen` really is consulted: an `OSError` subclass reaches the
 caller as `ProtocolError` (or `MaxRetryError`), never raw -/
 theorem C01_oserror_is_wrapped :
@@ -84,22 +116,26 @@ theorem C01_oserror_is_wrapped :
 every connection with a socket is queued, leased or held; `queue.length ≤ maxsize`;
 `queue.length + leases + held ≥ maxsize`, with equality when `block`.  `Inv s = InvL s []`.
 
-Full statement (DESIGN Appendix E), NOT yet proved as a whole:
-  (statement) C01_inv_reachable (cfg) (ops : List Op) : Inv (run (init cfg) ops)
-Proved below: the invariant holds initially; it is preserved by every primitive step of the
-read / close family (`Steps`: `HTTPConnection.close`, closing a reader, log / socket updates, any
-update of a response that keeps `_connection`), and the queue/lease counting core of the one-attempt
-summary lemma: a checked-out connection (`InvL s (c :: L)`) that is put back (`_put_conn(conn)`, clean
-exit) or discarded (`conn.close(); _put_conn(None)`, unclean exit) restores the invariant with the
-lease gone — including the `Full` / closed-pool / `FullPoolError` branches; and `_get_conn` turns `Inv s`
-into `InvL s' [c]` (`C01_attempt_clean_exit` / `C01_attempt_unclean_exit` string the three together for
-any sequence of primitive steps in between).  Missing for the full theorem: exhibiting `makeRequest` and
-the read family as `Steps`; attaching the connection to the response
-(`InvL s (c :: L)` → `InvL s' L`, `filterMap_modify_perm` is the list lemma for it); `releaseConn`
-(held → queue); and the induction over the attempt script in `request` that strings them together
-(each composite of the read family has to be exhibited as `Steps`).  The correspondence run
-compares the queue content after every operation with the implementation on every history.
+Full statement (DESIGN Appendix E), proved as `C01_inv_reachable` below (helpers in
+`U3/Lemmas/PoolInv.lean`: every function of the read family is exhibited as invariant-preserving
+moves, `releaseConn_inv` is held → queue, `attachResp_inv` is lease → held, `request_good` is the
+induction over the attempt script, `closePool_inv`).  The building blocks stay as theorems of their own:
+the invariant holds initially; it is preserved by every primitive step of the read / close family
+(`Steps`), by `_put_conn(conn)` on a clean exit and by `conn.close(); _put_conn(None)` on an unclean
+one — including the `Full` / closed-pool / `FullPoolError` branches; `_get_conn` turns `Inv s` into
+`InvL s' [c]`.
 -/
+
+/-- the slot invariant holds after EVERY history on a pool created with `maxsize = n > 0` -/
+theorem C01_inv_reachable (n : Nat) (block proxy : Bool) (hn : 0 < n) (ops : List Op) :
+    Inv (run (init n block proxy) ops) :=
+  run_inv ops _ (init_inv n block proxy hn)
+
+/-- `maxsize` and `block` are never written -/
+theorem C01_config_const (n : Nat) (block proxy : Bool) (hn : 0 < n) (ops : List Op) :
+    (run (init n block proxy) ops).maxsize = n ∧ (run (init n block proxy) ops).block = block := by
+  have k := run_keep ops _ (init_inv n block proxy hn)
+  exact ⟨k.msz, k.blk⟩
 
 theorem C01_inv_init (n : Nat) (block proxy : Bool) (hn : 0 < n) : Inv (init n block proxy) :=
   init_inv n block proxy hn
@@ -147,27 +183,70 @@ example : InvL { (init 1 true) with queue := [], conns := [{}] } [0] := by
   intro c cn h; cases c <;> simp at h; subst h; simp
 
 /-
-Full statement: (statement) C01_quiescent_slots (h : Reachable cfg s) (every returned response has been
-read, released or closed) : s.queue.length = cfg.maxsize.   FALSE on this tree as stated: see
-`C01_close_keeps_slot_witness`, `C01_preload_unreleased_witness` (known findings).  Proved: whenever
-the invariant holds and no response still holds a connection (which is what read-to-the-end,
-`release_conn()`, `drain_conn()` and a failed read establish — not `close()`), the pool offers
-exactly `maxsize` slots.
+Full statement: (statement) C01_quiescent_slots (ops) (every returned response has been read, released or
+closed) : (run (init n …) ops).queue.length = n.   FALSE on this tree as stated: see
+`C01_close_keeps_slot_witness` (known finding `slot-not-returned:close`; the second former witness is
+now the positive `C01_preload_released`).  Proved, for EVERY history: whenever no response still holds a
+connection — which is what read-to-the-end, `release_conn()`, `drain_conn()`, a failed read and (since
+the repair) a preloaded body establish, but not `close()` — the open pool offers exactly `n` slots.
+The hypothesis `held s = []` is the only one left; `Inv` is discharged by `C01_inv_reachable`.
 -/
-theorem C01_quiescent_slots_partial {s : State} (h : Inv s) (hc : s.closed = false) (hq : held s = []) :
-    s.queue.length = s.maxsize := by
+theorem C01_quiescent_slots_partial (n : Nat) (block proxy : Bool) (hn : 0 < n) (ops : List Op)
+    (hc : (run (init n block proxy) ops).closed = false) (hq : held (run (init n block proxy) ops) = []) :
+    (run (init n block proxy) ops).queue.length = n := by
+  have h := C01_inv_reachable n block proxy hn ops
   have h1 := h.slots hc
   have h2 := h.len
+  rw [(C01_config_const n block proxy hn ops).1] at h1 h2
   simp [hq] at h1
   omega
 
-/-- quiescent ⇒ every connection that still has a socket is idle in the queue -/
-theorem C01_no_leak_partial {s : State} (h : Inv s) (hq : held s = []) :
-    ∀ c cn, s.conns[c]? = some cn → cn.sock ≠ none → some c ∈ s.queue := by
+example : let s := run (init 1 true) [.request 0 { preload := false, release := false } .off
+      [{ head := some { status := 200, close := false, cl := some 2, location := false, retryAfter := false }, body := [1, 2] }],
+      .dispose 0 .release]
+    s.closed = false ∧ held s = [] := by decide
+
+/-- quiescent ⇒ every connection that still has a socket is idle in the queue (every history).  Same
+remaining hypothesis.  (Sockets kept open only by the reader of a response whose connection went back
+unread — finding `unread-response-after-release` — are not connection sockets: `conn.sock` is `none`
+for them; the statement is about connections.) -/
+theorem C01_no_leak_partial (n : Nat) (block proxy : Bool) (hn : 0 < n) (ops : List Op)
+    (hq : held (run (init n block proxy) ops) = []) :
+    ∀ c cn, (run (init n block proxy) ops).conns[c]? = some cn → cn.sock ≠ none →
+      some c ∈ (run (init n block proxy) ops).queue := by
   intro c cn hc hs
-  have := h.live c cn hc hs
+  have := (C01_inv_reachable n block proxy hn ops).live c cn hc hs
   simp [owned, hq, queued] at this
   exact this
+
+/-- the same two consequences for any state satisfying the invariant (the form used before
+`C01_inv_reachable` was available) -/
+theorem C01_quiescent_of_inv {s : State} (h : Inv s) (hc : s.closed = false) (hq : held s = []) :
+    s.queue.length = s.maxsize ∧ ∀ c cn, s.conns[c]? = some cn → cn.sock ≠ none → some c ∈ s.queue := by
+  refine ⟨?_, ?_⟩
+  · have h1 := h.slots hc
+    have h2 := h.len
+    simp [hq] at h1
+    omega
+  · intro c cn hc' hs
+    have := h.live c cn hc' hs
+    simp [owned, hq, queued] at this
+    exact this
+
+/-- a response that holds no connection never holds one later (every history, every continuation) -/
+theorem C01_unheld_stays (n : Nat) (block proxy : Bool) (hn : 0 < n) (ops more : List Op) (r : Nat) (rs : Resp)
+    (hr : (run (init n block proxy) ops).resps[r]? = some rs) (hc : rs.conn = none) :
+    ∀ rs' : Resp, (run (run (init n block proxy) ops) more).resps[r]? = some rs' → rs'.conn = none :=
+  unheld_stays (C01_inv_reachable n block proxy hn ops) more hr hc
+
+/-- `release_conn()` on a response that knows its pool leaves it holding nothing, in every reachable
+state — and its `_put_conn` never raises `FullPoolError` -/
+theorem C01_release_unholds (n : Nat) (block proxy : Bool) (hn : 0 < n) (ops : List Op) (r : Nat) (rs : Resp)
+    (hr : (run (init n block proxy) ops).resps[r]? = some rs) (hp : rs.hasPool = true) :
+    (releaseConn (run (init n block proxy) ops) r).2 = none ∧
+    ∀ rs' : Resp, (releaseConn (run (init n block proxy) ops) r).1.resps[r]? = some rs' → rs'.conn = none :=
+  ⟨(releaseConn_inv r (C01_inv_reachable n block proxy hn ops)).2,
+   releaseConn_unholds (C01_inv_reachable n block proxy hn ops) hr hp⟩
 
 /-- `block=True`: with `maxsize` responses holding their connections the queue is empty and the next
 checkout is `EmptyPoolError` -/
@@ -207,11 +286,17 @@ theorem C01_close_keeps_slot_witness :
 theorem C01_release_returns_slot_witness :
     (run (init 1 true) [.request 0 streamCfg .off [okAttempt], .dispose 0 .release]).queue.length = 1 := by decide
 
-/-- `preload_content=True, release_conn=False`: the body has been read completely by the constructor
-before `_connection` was set; `stream()` finds the reader closed and returns at once, nothing releases
-the connection (signature `slot-not-returned:preloaded-release_conn=False`) -/
-theorem C01_preload_unreleased_witness :
+/-- `preload_content=True, release_conn=False` (former finding
+`slot-not-returned:preloaded-release_conn=False`, repaired: `_make_request` releases the connection
+of a response whose preloaded body has been read to the end): the history of the former negation
+witness now leaves the slot in the pool — after `urlopen` already, and `stream()` on the preloaded
+response changes nothing; the response no longer holds the connection -/
+theorem C01_preload_released :
+    let s1 := run (init 1 true) [.request 0 { preload := true, release := false } .off [okAttempt]]
     let s := run (init 1 true) [.request 0 { preload := true, release := false } .off [okAttempt], .dispose 0 (.stream 3)]
-    s.queue.length = 0 ∧ s.resps.all (fun r => r.fp.isNone) = true := by decide
+    s1.queue.length = 1 ∧ s.queue.length = 1 ∧ s.resps.all (fun r => r.fp.isNone) = true ∧ held s = [] ∧
+      (match (step s (.request 1 { preload := true, release := false } .off [okAttempt])).2 with
+       | .result (.resp _) => true
+       | _ => false) = true := by decide
 
 end U3.Props
